@@ -474,6 +474,21 @@ pub fn run(ctx: &'static Ctx) {
     explore(ctx, Dispatch { al: al1, max: 1, steps: steps_all_errors }, Some(1 + n_all), "every request variant incl. every vendor code x both entry points x success / every named CTAP2 status (55) resp. 8 CTAP1 status words as the handler's error");
     let al2 = al.clone();
     explore(ctx, Dispatch { al: al2, max, steps: steps_used }, Some(1 + k + k * k), "histories of two dispatches on one authenticator: nothing is carried over");
+    if ctx.thorough() {
+        // three dispatches in a row: one vendor code, first payload of each command, success and two errors
+        let keep_vendor = al.ctap2.iter().position(|(l, _)| l == "vendor 0x42").unwrap() as u16;
+        let s3: Vec<Step> = steps
+            .iter()
+            .cloned()
+            .filter(|(r, _, b)| {
+                let lab = if (*r as usize) < al.ctap2.len() { &al.ctap2[*r as usize].0 } else { &al.ctap1[*r as usize - al.ctap2.len()].0 };
+                *b <= 2 && (!lab.starts_with("vendor") || *r == keep_vendor) && !lab.ends_with(":full") && !lab.ends_with('\'')
+            })
+            .collect();
+        let k3 = s3.len() as u64;
+        let al3 = al.clone();
+        explore(ctx, Dispatch { al: al3, max: 3, steps: s3 }, Some(1 + k3 + k3 * k3 + k3 * k3 * k3), "histories of three dispatches over one payload per command, one vendor code, success and two errors");
+    }
     let nolb = (al.ctap2.len() * 2) as u64;
     let alr = &*al;
     sweep(ctx, "authenticator without large-blob support", nolb, "every CTAP2 request x both entry points on a mock that does not override large_blobs", move |idx, l| {
